@@ -13,9 +13,10 @@ OBSERVATION with the schedule that produced it.
 
   python -m harness.x_refresh [budget]
 """
+import json
 import sys
 
-from harness import detsched, runner
+from harness import detsched, runner, tlc
 
 
 POP = [
@@ -25,6 +26,23 @@ POP = [
 ]
 for _d in POP:
     _d.update(zones=0, h=0, w=0, colour=[1, 2, 3, 3500], power=0)
+
+
+ID = {'A': 1, 'B': 2, 'C': 3, 'G1': 1, 'G2': 2, 'L1': 1, 'L2': 2}
+
+
+def encode(reads):
+    """Reads as LightDirRace events (group_of_C reads a Light object, not the directory: not modelled)."""
+    out = []
+    for kind, value in reads:
+        if kind == 'names':
+            out.append({'k': 'names', 'key': 0, 'v': [ID[n] for n in value]})
+        elif kind == 'group_names':
+            out.append({'k': 'gn', 'key': 0, 'v': [ID[n] for n in value]})
+        elif kind.startswith('members:'):
+            out.append({'k': 'gm' if kind[8] == 'G' else 'lm', 'key': ID[kind[8:]],
+                        'v': [-1] if value is None else [ID[n] for n in value]})
+    return out
 
 
 def snapshot(ls):
@@ -42,6 +60,9 @@ def once(policy):
     try:
         ls = world.light_set
         before = snapshot(ls)
+        scenario = {'names0': [ID[n] for n in ls._light_names],
+                    'gd0': [{'k': ID[k], 'm': [ID[n] for n in m]} for k, m in ls._groups.items()],
+                    'ld0': [{'k': ID[k], 'm': [ID[n] for n in m]} for k, m in ls._locations.items()]}
         world.net.by_name('C').group = 'G1'          # C moves to G1: G2 disappears
         world.net.by_name('A').location = 'L2'       # A moves to L2
 
@@ -71,6 +92,10 @@ def once(policy):
         sched.spawn(reader, name='reader')
         sched.run()
         after = snapshot(ls)
+        scenario.update(order=[ID[d.name] for d in world.net.devices], newg=[ID[d.group] for d in world.net.devices],
+                        newl=[ID[d.location] for d in world.net.devices], namesfin=[ID[n] for n in after['names']],
+                        gfin=[{'k': ID[k], 'm': [ID[n] for n in m]} for k, m in after['groups'].items()],
+                        lfin=[{'k': ID[k], 'm': [ID[n] for n in m]} for k, m in after['locations'].items()])
     finally:
         world.close()
 
@@ -91,17 +116,64 @@ def once(policy):
     for kind, value in reads:
         if not legit(kind, value):
             problems.append('%s = %r is neither the directory before the refresh nor the one after it' % (kind, value))
+    sched.x_reads, sched.x_scenario = encode(reads), scenario
     return sched, problems
 
 
 def main(budget):
     seen = {}
     runs = 0
+    traces, scenario = {}, None
     for sched in detsched.explore(lambda pol: once_wrapped(pol, seen), 1, budget):
         runs += 1
+        scenario = sched.x_scenario
+        traces.setdefault(json.dumps(sched.x_reads), [c[1] for c in sched.choices])
+    model(scenario, traces)
     for what, (count, schedule) in sorted(seen.items()):
         print('OBSERVATION refresh: %d schedule(s): %s   (e.g. thread ids %s...)' % (count, what, schedule[:40]))
     print('x_refresh: %d schedules with at most one preemption explored, %d distinct observations' % (runs, len(seen)))
+
+
+CFG = 'SPECIFICATION Spec\n%s\nCHECK_DEADLOCK FALSE\n'
+
+
+def model(scenario, traces):
+    """spec/LightDirRace.tla: (1) its safe invariants hold and the refresher ends where the atomic Discover ends,
+    (2) TLC itself finds that a reader can see a directory that is neither before nor after (AtomicView fails),
+    (3) every read sequence recorded from the real LightSet is a behaviour of the step-by-step model."""
+    # binding demonstration: one recorded sequence with one field corrupted (G1 = [C] alone never exists) must be rejected
+    corrupt = json.loads(next(iter(traces)))
+    spot = next(e for e in corrupt if e['k'] == 'gm' and e['key'] == 1)
+    spot['v'] = [3]
+    batch = dict(scenario, reads=[json.loads(t) for t in traces] + [corrupt])
+    holds = ['TypeOK', 'UniqueKeys', 'EndsAsDiscover', 'AtMostOneGroup']
+    res = tlc.run_tlc('LightDirRace', cfg='r.cfg', files={'r.cfg': CFG % '\n'.join('INVARIANT ' + i for i in holds), 'b.json': json.dumps(batch)},
+                      env={'VERIF_BATCH': 'b.json', 'VERIF_MODE': 'free'}, timeout=300)
+    if res.violation:
+        print('OBSERVATION refresh-model: LightDirRace %s on the scenario (the step-by-step refresh does not end as the atomic Discover)' % res.violation)
+    else:
+        print('x_refresh: LightDirRace free run: %d distinct states, %s hold' % (res.distinct, ', '.join(holds)))
+    for inv, meaning in (('AtomicView', 'a reader can see a directory that is neither the one before nor the one after'),
+                         ('NoEmptyEntry', 'a reader can see a group that exists with no members')):
+        res = tlc.run_tlc('LightDirRace', cfg='r.cfg', files={'r.cfg': CFG % ('INVARIANT ' + inv), 'b.json': json.dumps(batch)},
+                          env={'VERIF_BATCH': 'b.json', 'VERIF_MODE': 'free'}, timeout=300)
+        if res.violation:
+            print('OBSERVATION refresh-model: TLC finds %s violated on LightDirRace: %s' % (inv, meaning))
+        else:
+            print('x_refresh: MACHINERY? LightDirRace satisfies %s - the model no longer shows the race the real code shows' % inv)
+    res = tlc.run_tlc('LightDirRace', cfg='r.cfg', files={'r.cfg': CFG % 'INVARIANT TypeOK', 'b.json': json.dumps(batch)},
+                      env={'VERIF_BATCH': 'b.json', 'VERIF_MODE': 'trace'}, timeout=900, workers=8)
+    ok = {r['id'] for r in res.printed if isinstance(r, dict) and r.get('ok')}
+    keys = list(traces)
+    bad = [i for i in range(1, len(keys) + 1) if i not in ok]
+    for i in bad[:5]:
+        print('OBSERVATION refresh-model: a recorded read sequence is NOT a behaviour of LightDirRace (schedule %s...): %s'
+              % (traces[keys[i - 1]][:40], keys[i - 1][:400]))
+    if len(keys) + 1 in ok:
+        print('x_refresh: MACHINERY? LightDirRace accepts a corrupted read sequence - the trace binding is vacuous')
+    else:
+        print('x_refresh: a read sequence with one corrupted field is rejected by LightDirRace (binding is not vacuous)')
+    print('x_refresh: %d distinct read sequences recorded, %d explained by LightDirRace (%d states)' % (len(keys), len(keys) - len(bad), res.distinct))
 
 
 def once_wrapped(policy, seen):
